@@ -1,2 +1,350 @@
+// C20 part 2 — numbers returned by script queries are the numbers the module holds and hands to the engine.
+// After each step of a scripted run: every query command is issued, its text parsed, and compared (at the precision the
+// script prints: 15 significant digits for variable-typed results, 6 for plain reals) with (a) the engine-side arrays of the
+// simulator, (b) the module's members read directly, (c) own arithmetic where the definition is elementary (scenario A).
 #include "c20_common.h"
-void part2(std::vector<Scn> const &scs, Args const &args, Result &total) {}
+
+static bool parse_nums(std::string s, std::vector<double> &o)
+{
+  o.clear();
+  for (char &c : s) if (c == '{' || c == '}' || c == '(' || c == ')' || c == ',' || c == '\n' || c == '\t') c = ' ';
+  std::istringstream is(s);
+  std::string t;
+  bool ok = true;
+  while (is >> t) {
+    char *e = NULL;
+    double d = strtod(t.c_str(), &e);
+    if (e == t.c_str() || *e != '\0') { ok = false; o.push_back(NAN); } else o.push_back(d);
+  }
+  return ok;
+}
+
+// equal at `digits` significant digits (half a unit of the last printed digit, plus own-arithmetic slack `extra`)
+static bool eq_at(double printed, double internal, int digits, double extra = 0.0)
+{
+  if (std::isnan(printed) || std::isnan(internal)) return std::isnan(printed) && std::isnan(internal);
+  if (std::isinf(internal)) return printed == internal;
+  double tol = 0.5000001 * std::pow(10.0, 1 - digits) * std::fabs(internal) + extra + 1e-300;
+  return std::fabs(printed - internal) <= tol;
+}
+
+struct Ctx {
+  Result *r; Scn const *sc; vproxy *px; long step; bool same_step; int variant;
+  std::vector<cvm::rvector> ptb;  // system + Colvars force of the previous engine step (what a lagging engine reports)
+  long abs0 = 0;
+  void bad(std::string const &cmd, std::string const &what, std::string const &got, std::string const &want)
+  {
+    r->violation("C20:agree:" + cmd + ":" + what,
+                 "{\"part\":2,\"scenario\":\"" + sc->id + "\",\"total_forces_same_step\":" + (same_step ? "true" : "false") + ",\"variant\":" + std::to_string(variant) +
+                 ",\"after_engine_step\":" + std::to_string(step) + ",\"command\":\"" + jesc(cmd) + "\",\"script_returned\":\"" + jesc(got.substr(0, 400)) +
+                 "\",\"expected\":\"" + jesc(want.substr(0, 400)) + "\"}");
+  }
+  void one(std::string const &key) { r->count("evaluations"); r->count("p2_comparisons"); r->seen("nontrivial", "p2:" + sc->id + ":" + std::to_string(variant) + ":" + std::to_string(step) + ":" + key); }
+
+  std::string vs(std::vector<double> const &v) { std::string s; for (double d : v) s += num(d) + " "; return s; }
+
+  // command -> numbers; compare with `want`
+  void nums(std::vector<std::string> const &w, std::string const &what, std::vector<double> const &want, int digits, double extra = 0.0)
+  {
+    std::string cmd;
+    for (size_t i = 1; i < w.size(); i++) cmd += (i > 1 ? " " : "") + w[i];
+    one(cmd + ":" + what);
+    SR s = cvs(*px, w);
+    std::vector<double> got;
+    if (s.rc != 0) { bad(cmd, "query-failed", s.out + s.msgs, vs(want)); return; }
+    if (!parse_nums(s.out, got)) { bad(cmd, "result-not-numeric", s.out, vs(want)); return; }
+    if (got.size() != want.size()) { bad(cmd, what + ":count", s.out, vs(want)); return; }
+    for (size_t i = 0; i < got.size(); i++)
+      if (!eq_at(got[i], want[i], digits, extra)) { bad(cmd, what, s.out, vs(want)); return; }
+  }
+  void text(std::vector<std::string> const &w, std::string const &what, std::string const &want)
+  {
+    std::string cmd;
+    for (size_t i = 1; i < w.size(); i++) cmd += (i > 1 ? " " : "") + w[i];
+    one(cmd + ":" + what);
+    SR s = cvs(*px, w);
+    if (s.rc != 0) { bad(cmd, "query-failed", s.out + s.msgs, want); return; }
+    if (s.out != want) bad(cmd, what, s.out, want);
+  }
+};
+
+static std::vector<double> rv(std::vector<cvm::rvector> const &a)
+{
+  std::vector<double> o;
+  for (auto &v : a) { o.push_back(v.x); o.push_back(v.y); o.push_back(v.z); }
+  return o;
+}
+
+// expected atom numbers (0-based) per group of each variable, from the scenario definitions
+static std::vector<std::vector<int>> groups_of(Scn const &sc, int cvi)
+{
+  if (sc.id == "A") return cvi == 0 ? std::vector<std::vector<int>>{{0, 1}, {2}} : std::vector<std::vector<int>>{{3}, {4, 5}};
+  if (sc.id == "B") return cvi == 0 ? std::vector<std::vector<int>>{{0}, {1}} : std::vector<std::vector<int>>{{2, 3, 4, 5}};
+  return cvi == 0 ? std::vector<std::vector<int>>{{4, 5}, {0}} : std::vector<std::vector<int>>{{1, 2}};
+}
+
+struct Hist { std::map<int, long> abf_bin_visits; std::vector<double> zvals; };
+
+static void battery(Ctx &c, Hist &h)
+{
+  vproxy &px = *c.px;
+  Scn const &sc = *c.sc;
+  colvarmodule *cm = px.colvars;
+  long nsteps_done = c.step + 1;
+
+  // ---- module level
+  c.nums(W({"cv", "getstepabsolute"}), "internal-step", {(double) cm->it}, 15);
+  c.nums(W({"cv", "getstepabsolute"}), "engine-step", {(double) (c.abs0 + c.step)}, 15);
+  c.nums(W({"cv", "getsteprelative"}), "engine-step", {(double) c.step}, 15);
+  c.nums(W({"cv", "getenergy"}), "internal-total_bias_energy", {cm->total_bias_energy}, 6);
+  {
+    double cve = 0.0;  // energy of extended degrees of freedom, also handed to the engine
+    for (colvar *cv : *(cm->variables())) if (cv->is_enabled(colvardeps::f_cv_extended_Lagrangian)) cve += cv->kinetic_energy + cv->potential_energy;
+    c.nums(W({"cv", "getenergy"}), "energy-handed-to-engine", {px.energy - cve}, 6, 1e-12);
+  }
+  {
+    std::vector<double> ids, ms, qs, pos, tf, af, engine_pos, engine_m, engine_q, engine_af, engine_tf;
+    for (size_t i = 0; i < px.atoms_ids.size(); i++) {
+      int a = px.atoms_ids[i];
+      ids.push_back(a); ms.push_back(px.atoms_masses[i]); qs.push_back(px.atoms_charges[i]);
+      engine_m.push_back(px.m[a]); engine_q.push_back(px.q[a]);
+      engine_pos.push_back(px.x[a].x); engine_pos.push_back(px.x[a].y); engine_pos.push_back(px.x[a].z);
+      engine_af.push_back(px.fapp[a].x); engine_af.push_back(px.fapp[a].y); engine_af.push_back(px.fapp[a].z);
+      cvm::rvector t(0, 0, 0);
+      if (px.total_force_requested) {
+        if (c.same_step) t = px.fsys[a];
+        else if (c.step > 0) t = c.ptb[a];
+      }
+      engine_tf.push_back(t.x); engine_tf.push_back(t.y); engine_tf.push_back(t.z);
+    }
+    std::set<int> want_ids;
+    for (int v = 0; v < 2; v++) for (auto &g : groups_of(sc, v)) for (int a : g) want_ids.insert(a);
+    std::set<int> got_ids(px.atoms_ids.begin(), px.atoms_ids.end());
+    c.one("atoms-requested");
+    if (want_ids != got_ids) c.bad("getatomids", "engine-atom-table-differs-from-configuration", c.vs(ids), "");
+    c.nums(W({"cv", "getatomids"}), "engine-array", ids, 15);
+    c.nums(W({"cv", "getatommasses"}), "engine-masses", engine_m, 6);
+    c.nums(W({"cv", "getatomcharges"}), "engine-charges", engine_q, 6);
+    c.nums(W({"cv", "getatompositions"}), "engine-positions", engine_pos, 15);
+    c.nums(W({"cv", "getatomtotalforces"}), "engine-total-forces", engine_tf, 15);
+    c.nums(W({"cv", "getatomtotalforces"}), "proxy-array", rv(px.atoms_total_forces), 15);
+    c.nums(W({"cv", "getatomappliedforces"}), "forces-handed-to-engine", engine_af, 15);
+    c.nums(W({"cv", "getatomappliedforces"}), "proxy-array", rv(px.atoms_new_colvar_forces), 15);
+    c.nums(W({"cv", "getnumatoms"}), "count", {(double) want_ids.size()}, 15);
+    c.nums(W({"cv", "getnumactiveatoms"}), "count", {(double) want_ids.size()}, 15);
+    c.nums(W({"cv", "getnumactiveatomgroups"}), "count", {0.0}, 15);
+    // statistics of the applied forces: own arithmetic on the forces the engine received
+    double mx = 0, s2 = 0; int imax = -1;
+    for (size_t i = 0; i < px.atoms_ids.size(); i++) {
+      cvm::rvector f = px.fapp[px.atoms_ids[i]];
+      double n2 = f.x * f.x + f.y * f.y + f.z * f.z;
+      s2 += n2;
+      if (n2 > mx) { mx = n2; imax = px.atoms_ids[i]; }
+    }
+    c.nums(W({"cv", "getatomappliedforcesmax"}), "own-arithmetic", {std::sqrt(mx)}, 6, 1e-12);
+    c.nums(W({"cv", "getatomappliedforcesrms"}), "own-arithmetic", {px.atoms_ids.size() ? std::sqrt(s2 / px.atoms_ids.size()) : 0.0}, 6, 1e-12);
+    if (imax >= 0) c.nums(W({"cv", "getatomappliedforcesmaxid"}), "own-arithmetic", {(double) imax}, 15);
+  }
+  c.text(W({"cv", "savetostring"}), "state-written-by-the-engine-path", px.state_text());
+  {
+    std::string l, lb;
+    for (auto &n : sc.cvn) l += (l.size() ? " " : "") + n;
+    for (auto &n : sc.bn) lb += (lb.size() ? " " : "") + n;
+    c.text(W({"cv", "list"}), "configured-names", l);
+    c.text(W({"cv", "list", "colvars"}), "configured-names", l);
+    c.text(W({"cv", "list", "biases"}), "configured-names", lb);
+  }
+  c.text(W({"cv", "version"}), "version-macro", COLVARS_VERSION);
+  c.text(W({"cv", "units"}), "engine-units", px.units);
+  c.nums(W({"cv", "timestep"}), "engine-timestep", {px.dt()}, 6);
+  c.nums(W({"cv", "targettemperature"}), "engine-temperature", {sc.T}, 6);
+  c.text(W({"cv", "getconfig"}), "internal-config", cm->get_config());
+  {
+    // frame line: step, then the values of the variables among the printed numbers
+    c.one("printframe");
+    SR s = cvs(px, W({"cv", "printframe"}));
+    std::vector<double> g;
+    parse_nums(s.out, g);
+    if (s.rc != 0 || g.empty() || g[0] != (double) cm->it) c.bad("printframe", "step-column", s.out, std::to_string(cm->it));
+    else {
+      size_t pos = 1;
+      for (colvar *cv : *(cm->variables())) {
+        std::vector<double> want;
+        cvv(cv->x_reported, want);
+        bool found = false;
+        for (size_t p = pos; p + want.size() <= g.size() && !found; p++) {
+          bool m = true;
+          for (size_t k = 0; k < want.size(); k++) if (!eq_at(g[p + k], want[k], 15)) m = false;
+          if (m) { found = true; pos = p + want.size(); }
+        }
+        if (!found) { c.bad("printframe", "value-of-" + cv->name + "-missing", s.out, c.vs(want)); break; }
+      }
+    }
+  }
+
+  // ---- variables
+  for (int vi = 0; vi < 2; vi++) {
+    std::string const &n = sc.cvn[vi];
+    colvar *cv = px.cv(n);
+    if (!cv) { c.bad("colvar " + n, "object-missing", "", ""); continue; }
+    std::vector<double> val, fa, ft;
+    cvv(cv->x_reported, val); cvv(cv->is_enabled(colvardeps::f_cv_extended_Lagrangian) ? cv->fr : cv->f, fa); cvv(cv->ft_reported, ft);
+    c.nums(W({"cv", "colvar", n, "value"}), "internal-value", val, 15);
+    c.nums(W({"cv", "colvar", n, "getappliedforce"}), "internal-applied-force", fa, 15);
+    c.nums(W({"cv", "colvar", n, "gettotalforce"}), "internal-total-force", ft, 15);
+    c.nums(W({"cv", "colvar", n, "getgradients"}), "internal-gradients", rv(cv->atomic_gradients), 15);
+    c.nums(W({"cv", "colvar", n, "width"}), "internal-width", {cv->width}, 15);
+    c.text(W({"cv", "colvar", n, "getconfig"}), "configuration-given", sc.cvc[vi].substr(sc.cvc[vi].find('\n') + 1, sc.cvc[vi].rfind('}') - sc.cvc[vi].find('\n') - 1));
+    std::vector<std::vector<int>> gr = groups_of(sc, vi);
+    std::set<int> ids;
+    std::string gl;
+    for (auto &g : gr) { gl += "{"; for (int a : g) { ids.insert(a); gl += std::to_string(a) + " "; } gl += "} "; }
+    c.nums(W({"cv", "colvar", n, "getatomids"}), "configured-atoms", std::vector<double>(ids.begin(), ids.end()), 15);
+    c.text(W({"cv", "colvar", n, "getatomgroups"}), "configured-groups", gl);
+    for (auto &fn : {std::string("active"), std::string("collect_gradient"), std::string("total_force"), std::string("apply_force"), std::string("running_average")}) {
+      int fid = -1;
+      for (size_t k = 0; k < cv->features().size(); k++) if (cv->features()[k]->description == fn) fid = (int) k;
+      if (fid >= 0 && cv->is_available(fid)) c.nums(W({"cv", "colvar", n, "get", fn}), "internal-flag", {cv->feature_states[fid].enabled ? 1.0 : 0.0}, 15);
+    }
+  }
+  // ---- biases
+  for (int bi = 0; bi < 2; bi++) {
+    std::string const &n = sc.bn[bi];
+    colvarbias *b = px.bias(n);
+    if (!b) { c.bad("bias " + n, "object-missing", "", ""); continue; }
+    c.nums(W({"cv", "bias", n, "energy"}), "internal-energy", {b->bias_energy}, 6);
+    std::string ty = sc.bc[bi].substr(0, sc.bc[bi].find(' '));
+    c.text(W({"cv", "bias", n, "type"}), "configured-type", ty);
+    c.text(W({"cv", "bias", n, "getconfig"}), "configuration-given", sc.bc[bi].substr(sc.bc[bi].find('\n') + 1, sc.bc[bi].rfind('}') - sc.bc[bi].find('\n') - 1));
+    {
+      c.one("bias " + n + " savetostring");
+      SR s = cvs(px, W({"cv", "bias", n, "savetostring"}));
+      std::string st = px.state_text();
+      // the per-bias string is the bias's block of the module state (compared without indentation / blank lines)
+      auto squeeze = [](std::string const &t) { std::string o; for (char ch : t) if (ch != ' ' && ch != '\n' && ch != '\t') o += ch; return o; };
+      if (s.rc != 0 || s.out.empty() || squeeze(st).find(squeeze(s.out)) == std::string::npos) c.bad("bias " + n + " savetostring", "not-the-block-of-the-module-state", s.out, st);
+    }
+    int fid = -1;
+    for (size_t k = 0; k < b->features().size(); k++) if (b->features()[k]->description == "active") fid = (int) k;
+    if (fid >= 0) c.nums(W({"cv", "bias", n, "get", "active"}), "internal-flag", {b->feature_states[fid].enabled ? 1.0 : 0.0}, 15);
+  }
+
+  // ---- own arithmetic (scenario A: d = |x3 - com(x1,x2)|, v = com(x5,x6) - x4, harmonic on v, ABF on d)
+  if (sc.id == "A") {
+    auto X = [&](int a) { return px.x[a]; };
+    double m1 = px.m[0], m2 = px.m[1], m5 = px.m[4], m6 = px.m[5];
+    cvm::rvector c12 = (m1 * X(0) + m2 * X(1)) / (m1 + m2);
+    cvm::rvector dv = X(2) - c12;
+    double d = std::sqrt(dv.x * dv.x + dv.y * dv.y + dv.z * dv.z);
+    cvm::rvector u = dv / d;
+    cvm::rvector v = (m5 * X(4) + m6 * X(5)) / (m5 + m6) - X(3);
+    c.nums(W({"cv", "colvar", "d", "value"}), "own-arithmetic", {d}, 15, 1e-12);
+    c.nums(W({"cv", "colvar", "v", "value"}), "own-arithmetic", {v.x, v.y, v.z}, 15, 1e-12);
+    double k = 3.0, cx[3] = {1.0, 0.5, -0.5}, vv[3] = {v.x, v.y, v.z}, e = 0, fv[3];
+    for (int i = 0; i < 3; i++) { e += 0.5 * k * (vv[i] - cx[i]) * (vv[i] - cx[i]); fv[i] = -k * (vv[i] - cx[i]); }
+    c.nums(W({"cv", "bias", "h", "energy"}), "own-arithmetic", {e}, 6, 1e-12);
+    c.nums(W({"cv", "colvar", "v", "getappliedforce"}), "own-arithmetic", {fv[0], fv[1], fv[2]}, 15, 1e-11);
+    c.nums(W({"cv", "colvar", "d", "getgradients"}), "own-arithmetic",
+           {-u.x * m1 / (m1 + m2), -u.y * m1 / (m1 + m2), -u.z * m1 / (m1 + m2), -u.x * m2 / (m1 + m2), -u.y * m2 / (m1 + m2), -u.z * m2 / (m1 + m2), u.x, u.y, u.z}, 15, 1e-12);
+    // ABF grid: bin of d and visits of that bin, counted here
+    int bin = (int) std::floor((d - 0.0) / 0.5);
+    h.abf_bin_visits[bin]++;
+    c.nums(W({"cv", "bias", "a", "bin"}), "own-arithmetic", {(double) bin}, 15);
+    c.nums(W({"cv", "bias", "a", "binnum"}), "own-arithmetic", {16.0}, 15);
+    // the sample of step s is accumulated when its total force is known: same step, or one step later
+    {
+      c.one("bias a bincount");
+      SR s = cvs(px, W({"cv", "bias", "a", "bincount"}));
+      std::vector<double> g; parse_nums(s.out, g);
+      long want_hi = h.abf_bin_visits[bin], want_lo = want_hi - 1;
+      if (c.variant != 1 && (s.rc != 0 || g.size() != 1 || !(g[0] == want_hi || (!c.same_step && g[0] == want_lo))))
+        c.bad("bias a bincount", "own-count-of-visits", s.out, std::to_string(want_hi));
+    }
+    // forces on the atoms = sum over variables of (script: applied force) x (gradient), all from script numbers
+    {
+      c.one("atom-forces-from-script-numbers");
+      SR fd = cvs(px, W({"cv", "colvar", "d", "getappliedforce"}));
+      SR af = cvs(px, W({"cv", "getatomappliedforces"}));
+      SR id = cvs(px, W({"cv", "getatomids"}));
+      std::vector<double> gfd, gaf, gid;
+      parse_nums(fd.out, gfd); parse_nums(af.out, gaf); parse_nums(id.out, gid);
+      bool okk = gfd.size() == 1 && gaf.size() == 3 * gid.size();
+      std::map<int, cvm::rvector> want;
+      if (okk) {
+        double f = gfd[0];
+        want[0] = (-f * m1 / (m1 + m2)) * u; want[1] = (-f * m2 / (m1 + m2)) * u; want[2] = f * u;
+        cvm::rvector F(fv[0], fv[1], fv[2]);
+        want[3] = -1.0 * F; want[4] = (m5 / (m5 + m6)) * F; want[5] = (m6 / (m5 + m6)) * F;
+        for (size_t i = 0; i < gid.size() && okk; i++) {
+          cvm::rvector w = want[(int) gid[i]];
+          double sc_ = std::max(1.0, std::fabs(f) + std::fabs(fv[0]) + std::fabs(fv[1]) + std::fabs(fv[2]));
+          if (!close_rel(gaf[3 * i], w.x, sc_) || !close_rel(gaf[3 * i + 1], w.y, sc_) || !close_rel(gaf[3 * i + 2], w.z, sc_)) okk = false;
+        }
+      }
+      if (!okk) c.bad("getatomappliedforces", "differs-from-script-applied-force-times-gradient", af.out, "f_d=" + fd.out);
+    }
+  }
+  if (sc.id == "C") {
+    // running average over the last 2 values, own arithmetic on the values returned by the script
+    SR s = cvs(px, W({"cv", "colvar", "z", "value"}));
+    std::vector<double> g; parse_nums(s.out, g);
+    if (g.size() == 1) h.zvals.push_back(g[0]);
+    colvar *cv = px.cv("z");
+    std::vector<double> ra; cvv(cv->runave, ra);
+    c.nums(W({"cv", "colvar", "z", "run_ave"}), "internal-running-average", ra, 15);
+    if (h.zvals.size() >= 2 && c.variant != 1) {
+      size_t n = h.zvals.size();
+      c.nums(W({"cv", "colvar", "z", "run_ave"}), "own-arithmetic", {0.5 * (h.zvals[n - 1] + h.zvals[n - 2])}, 15, 1e-12);
+    }
+    // histogram restraint-free bias g: bin of z
+    (void) nsteps_done;
+  }
+}
+
+void part2(std::vector<Scn> const &scs, Args const &args, Result &total)
+{
+  // (scenario, timing convention, variant): variant 0 plain run, 1 resumed from the donor state, 2 step counter beyond 2^31
+  struct Job { int si; bool same; int variant; };
+  std::vector<Job> jobs;
+  for (int si = 0; si < (int) scs.size(); si++) for (int same = 0; same < 2; same++) for (int var = 0; var < 3; var++) jobs.push_back({si, same != 0, var});
+  long nsteps = args.thorough() ? 8 : 5;
+  std::string scratch = args.kv.count("scratch") ? args.kv.at("scratch") : ".";
+  bool ok = run_sharded((int) std::min<size_t>(args.jobs, jobs.size()), [&](int shard, int nsh, Result &r) {
+    g_wdir = scratch + "/p2w" + std::to_string(shard) + "x";
+    mkdir(g_wdir.c_str(), 0755);
+    if (chdir(g_wdir.c_str()) != 0) herr("chdir");
+    for (size_t j = shard; j < jobs.size(); j += nsh) {
+      run_cases_forked(j, j + 1, [&](size_t ji, Result &rr) {
+        Job const &jb = jobs[ji];
+        Scn const &sc = scs[jb.si];
+        vproxy *px = new_px(sc, jb.same);
+        if (px->config(all_conf(sc)) != 0) { fprintf(stderr, "HARNESS-ERROR: part 2 configuration rejected: %s\n", px->errtxt.c_str()); _exit(2); }
+        // gradients of the first (scalar) variable are collected on request
+        SR g = cvs(*px, W({"cv", "colvar", sc.cvn[0], "set", "collect_gradient", "1"}));
+        if (g.rc != 0) { fprintf(stderr, "HARNESS-ERROR: cannot enable collect_gradient: %s\n", (g.out + g.msgs).c_str()); _exit(2); }
+        long e0 = 0, abs0 = 0;
+        if (jb.variant == 1) { px->queue_state_text(sc.state3); e0 = 3; abs0 = 3; }
+        if (jb.variant == 2) { px->colvars->it = px->colvars->it_restart = 3000000000LL; abs0 = 3000000000LL; }
+        Hist h;
+        for (long s = 0; s < nsteps; s++) {
+          place(*px, e0 + s);
+          std::vector<cvm::rvector> ptb = px->prev_total;
+          int rc = px->step(e0 + s);
+          if (rc != 0) { fprintf(stderr, "HARNESS-ERROR: part 2 step failed: %s\n", px->errtxt.c_str()); _exit(2); }
+          rr.count("transitions");
+          Ctx c{&rr, &sc, px, s, jb.same, jb.variant, ptb, abs0};
+          std::string before = observe(*px);
+          battery(c, h);
+          // the whole battery is made of queries: nothing may have changed
+          rr.count("evaluations");
+          if (observe(*px) != before) rr.violation("C20:agree:query-battery-changed-the-module", "{\"part\":2,\"scenario\":\"" + sc.id + "\",\"after_engine_step\":" + std::to_string(s) + ",\"first_difference\":\"" + jesc(first_diff(before, observe(*px))) + "\"}");
+          rr.seen("states", before);
+        }
+        delete px;
+      }, [&](size_t ji, std::string const &kind, std::string const &tail) {
+        r.violation("C20:crash:query-battery:" + kind, "{\"part\":2,\"scenario\":\"" + scs[jobs[ji].si].id + "\",\"death\":\"" + jesc(kind) + "\",\"report\":\"" + jesc(tail) + "\"}");
+      }, r);
+    }
+  }, total, 1800);
+  if (!ok) exit(2);
+}
